@@ -43,10 +43,12 @@ Inductive dstmt :=
 | DForLocal (sd : side) (body : list dstmt)           (* for <loop> in edge[sd]: body *)
 | DForIds (body : list dstmt)                         (* for <loop> in <the iterable of ids>: body *)
 | DForTail (body : list dstmt) | DForHead (body : list dstmt)   (* for <loop> in tail / head: body   (tail = list(members[0])) *)
-| DClear (t : table) | DClearAttr (t : table) | DClearNet.
+| DClear (t : table) | DClearAttr (t : table) | DClearNet
+| DSetPair (k : vexp)                                 (* self._edge[k] = {"in": set(tail), "out": set(head)} *)
+| DAttrUpdateItem (t : table) (k : vexp).             (* self._T_attr[k].update(eattr), the item's own attribute dict *)
 
-Record dext := mkDExt { dx_tail : list lbl; dx_head : list lbl; dx_idx : option lbl; dx_uid : lbl }.
-Definition dext0 : dext := mkDExt [] [] None LNone.
+Record dext := mkDExt { dx_tail : list lbl; dx_head : list lbl; dx_idx : option lbl; dx_uid : lbl; dx_eattr : attrs }.
+Definition dext0 : dext := mkDExt [] [] None LNone [].
 Record denv := mkDEnv { de_args : list lbl; de_flags : list bool; de_dir : direction; de_attr : attrs; de_ids : list lbl;
                         de_loop : lbl; de_loop1 : lbl; de_ed : side; de_nd : side; de_local : list lbl * list lbl; de_x : dext }.
 Definition dwith_loop (en : denv) (x : lbl) : denv :=
@@ -57,7 +59,7 @@ Definition dwith_local (en : denv) (p : list lbl * list lbl) : denv :=
   mkDEnv (de_args en) (de_flags en) (de_dir en) (de_attr en) (de_ids en) (de_loop en) (de_loop1 en) (de_ed en) (de_nd en) p (de_x en).
 Definition dwith_uid_var (en : denv) (u : lbl) : denv :=
   mkDEnv (de_args en) (de_flags en) (de_dir en) (de_attr en) (de_ids en) (de_loop en) (de_loop1 en) (de_ed en) (de_nd en) (de_local en)
-         (mkDExt (dx_tail (de_x en)) (dx_head (de_x en)) (dx_idx (de_x en)) u).
+         (mkDExt (dx_tail (de_x en)) (dx_head (de_x en)) (dx_idx (de_x en)) u (dx_eattr (de_x en))).
 
 Definition dveval (v : vexp) (en : denv) : lbl :=
   match v with VArg i => nth i (de_args en) LNone | VLoop => de_loop en | VLoop1 => de_loop1 en | VUid => dx_uid (de_x en)
@@ -184,6 +186,13 @@ Fixpoint dexec (q : dstmt) (en : denv) (d : dhg) {struct q} : dhg * outcome :=
   | DClear t => (mkD (set_tab t (ts d) []) (set_tab t (hs d) []), Ok)
   | DClearAttr t => (mkD (set_atab t (ts d) []) (set_atab t (hs d) []), Ok)
   | DClearNet => (mkD (with_net (ts d) []) (with_net (hs d) []), Ok)
+  | DSetPair k => if is_none (dveval k en) then (d, Raised XGIError)
+                  else (mkD (with_edge (ts d) (set (dveval k en) (mkset (dx_tail (de_x en))) (h_edge (ts d))))
+                            (with_edge (hs d) (set (dveval k en) (mkset (dx_head (de_x en))) (h_edge (hs d)))), Ok)
+  | DAttrUpdateItem t k => match get (dveval k en) (atab t (ts d)) with
+                           | Some a => (mkD (set_atab t (ts d) (set (dveval k en) (aupdate a (dx_eattr (de_x en))) (atab t (ts d)))) (hs d), Ok)
+                           | None => (d, Raised IDNotFound)
+                           end
   end.
 
 Fixpoint dexec_list (l : list dstmt) (en : denv) (d : dhg) : dhg * outcome :=
@@ -206,7 +215,7 @@ Fixpoint run_dguards (gs : list (dbexp * guard_action)) (en : denv) (d : dhg) : 
       end
   end.
 Definition run_dmethod_e (gs1 gs2 : list (dbexp * guard_action)) (body : list dstmt) (tl hd : list lbl) (idx : option lbl) (a : attrs) (d : dhg) : dres :=
-  let en := mkDEnv [] [] DirInvalid a [] LNone LNone SdIn SdOut ([], []) (mkDExt tl hd idx LNone) in
+  let en := mkDEnv [] [] DirInvalid a [] LNone LNone SdIn SdOut ([], []) (mkDExt tl hd idx LNone []) in
   match run_dguards gs1 en d with
   | Some r => r
   | None =>
@@ -218,3 +227,22 @@ Definition run_dmethod_e (gs1 gs2 : list (dbexp * guard_action)) (body : list ds
       | None => match dexec_list body en' d0 with (d', o) => (d', o, O) end
       end
   end.
+
+(* one item of the bulk formats of DiHypergraph.add_edges_from (the flag: the id is the caller's), and the loops over the items *)
+Definition run_dbulk_item (gs : list (dbexp * guard_action)) (body : list dstmt) (explicit : bool) (a : attrs)
+           (tl hd : list lbl) (idx : lbl) (ea : attrs) (d : dhg) : dres :=
+  let en := mkDEnv [] [explicit] DirInvalid a [] LNone LNone SdIn SdOut ([], []) (mkDExt tl hd (Some idx) LNone ea) in
+  match run_dguards gs en d with
+  | Some r => r
+  | None => match dexec_list body en d with (d', o) => (d', o, O) end
+  end.
+Definition run_dbulk (table : list (bool * bool)) (k : nat) (gs : list (dbexp * guard_action)) (body : list dstmt) (a : attrs)
+           (items : list (list lbl * list lbl * lbl * attrs)) (d : dhg) : dres :=
+  let '(explicit, has_ea) := nth k table (false, false) in
+  dloop (fun d it =>
+           let '(tl, hd, idx, ea) := it in
+           let ea' := if has_ea then ea else [] in
+           if explicit then run_dbulk_item gs body true a tl hd idx ea' d
+           else run_dbulk_item gs body false a tl hd (LInt (h_uid (ts d))) ea' (both (fun s => with_uid s (h_uid s + 1)%Z) d)) items d.
+Definition run_ditems (gs : list (dbexp * guard_action)) (body : list dstmt) (items : list (lbl * (list lbl * list lbl))) (d : dhg) : dres :=
+  dloop (fun d im => run_dbulk_item gs body true [] (fst (snd im)) (snd (snd im)) (fst im) [] d) items d.
